@@ -1,5 +1,11 @@
+mod driver;
+mod hooks;
 use hydro_lang::prelude::*;
 fn main() {
+    if std::env::var_os("CARGO_MANIFEST_DIR").is_none() {
+        unsafe { std::env::set_var("CARGO_MANIFEST_DIR", env!("CARGO_MANIFEST_DIR")) };
+    }
+    let _ = hooks::ALL_KINDS;
     let t0 = std::time::Instant::now();
     let mut flow = FlowBuilder::new();
     let node = flow.process::<()>();
